@@ -113,17 +113,15 @@ def explore_job(job):
 
 
 def run_jobs(rep, jobs, known, concurrent=3, echo=True):
-    """Explore up to `concurrent` jobs at a time (each on its own process
-    pool); post-process in order."""
-    import concurrent.futures as cf
-    with cf.ThreadPoolExecutor(max_workers=concurrent) as ex:
-        futs = [ex.submit(explore_job, j) for j in jobs]
-        for job, fut in zip(jobs, futs):
-            results, stats = fut.result()
-            j = run_job(rep, job, known, results, stats)
-            if echo:
-                print(f'  job {j["label"]}: paths={j["paths"]} queries={j["queries"]} '
-                      f'wall={j["wall_s"]}s outcomes={j["outcomes"]}', flush=True)
+    """Explore up to `concurrent` jobs at a time (each on its own set of
+    worker processes, all driven from this thread); post-process in order."""
+    specs = [dict(mod=j.mod, params=j.params, procs=j.procs, max_paths=j.max_paths,
+                  timeout_s=j.timeout_s) for j in jobs]
+    for i, results, stats in engine.explore_many(specs, concurrent):
+        j = run_job(rep, jobs[i], known, results, stats)
+        if echo:
+            print(f'  job {j["label"]}: paths={j["paths"]} queries={j["queries"]} '
+                  f'wall={j["wall_s"]}s outcomes={j["outcomes"]}', flush=True)
 
 
 def run_job(rep, job, known, results=None, stats=None):
